@@ -106,6 +106,8 @@ type FnVC struct {
 	specFiles map[string]bool
 	lemmasUsed map[string]bool
 	invSeen map[string]bool
+	trustedUsed map[string]bool
+	entryCheck *Obligation
 }
 
 func (c *FnVC) emit(s string)            { c.out = append(c.out, s) }
@@ -838,6 +840,9 @@ func (c *FnVC) entrySetup() {
 		}
 	}
 	c.entry = copyHeap(c.cur)
+	if c.ct != nil {
+		c.entryCheck = &Obligation{Name: c.fnName() + "#vacuity.entry", Class: "vacuity", Prefix: len(c.out), Guard: "true", Goal: "false", Descr: "requires and assumed invariants are satisfiable", Fn: c}
+	}
 }
 
 func (c *FnVC) paramEnv() map[string]envVal {
